@@ -258,15 +258,11 @@ func runOnce(t *testing.T, p *gen.Prog, dir string, st *strategy, o runOpts, onD
 		var calls []*task.Call
 		for _, r := range p.Roots {
 			vars := ast.NewVars()
-			tt := p.Tasks[r.Target]
-			if tt.Run != gen.WhenChanged {
-				vars.Set("P", ast.Var{Value: fmt.Sprintf(">r%d", r.ID)})
-			}
-			if r.X != "" {
-				vars.Set("X", ast.Var{Value: r.X})
-			}
-			if rq := tt.RQ(); rq != "" {
-				vars.Set("RQ", ast.Var{Value: rq})
+			rv := p.RootVars(r)
+			for _, k := range []string{"P", "X", "Y", "RQ"} {
+				if v, ok := rv[k]; ok {
+					vars.Set(k, ast.Var{Value: v})
+				}
 			}
 			calls = append(calls, &task.Call{Task: p.RootName(r), Vars: vars})
 		}
